@@ -1795,7 +1795,14 @@ def sp_concat(it, args, kwargs):
 
 def sp_same(it, args, kwargs):
     """same(a, b): structural equality of the by-value images."""
-    return mkbool(lift(args[0]) == lift(args[1]))
+    a, b = args
+    if isinstance(a, (VDict, VKeys)) and isinstance(b, (VDict, VKeys)):
+        ta = a.to_arr() if isinstance(a, VDict) else a.arr
+        tb = b.to_arr() if isinstance(b, VDict) else b.arr
+        return mkbool(ta == tb)
+    if isinstance(a, VSet) and isinstance(b, VSet):
+        return mkbool(a.to_arr() == b.to_arr())
+    return mkbool(lift(a) == lift(b))
 
 
 def sp_fld(it, args, kwargs):
